@@ -130,10 +130,10 @@ def run(c):
     c.r2("peer-addrs-cap", "<grin_p2p::msg::PeerAddrs as grin_core::ser::Readable>::read", ops={"Gt"}, lhs=["call:Reader::read_u32"], rhs=["re:^item:types::MAX_PEER_ADDRS="],
          err="TooLargeReadErr", sink="re:alloc::vec::Vec::with_capacity$")
     BB = "<grin_chain::txhashset::bitmap_accumulator::BitmapBlock as grin_core::ser::Readable>::read"
-    c.r2("bitmap-block-pos", BB, ops={"Ge"}, lhs=["call:Reader::read_u16"], rhs=["call:Reader::read_u8"], err="CorruptedData", sink="re:bit_vec::BitVec::set$", min_guards=2)
+    c.r2("bitmap-block-pos", BB, ops={"Ge"}, lhs=["call:Reader::read_u16"], rhs=["call:Reader::read_u8", "op:MulWithOverflow", "re:^item:BitmapChunk::LEN_BITS="], err="CorruptedData", sink="re:bit_vec::BitVec::set$", min_guards=2)
     c.r2("bitmap-block-chunks", BB, ops={"Gt"}, lhs=["call:Reader::read_u8"], rhs=["re:^item:.*NCHUNKS="], err="TooLargeReadErr", sink="re:bit_vec::BitVec::from_elem$")
     BS = "<grin_chain::txhashset::bitmap_accumulator::BitmapSegment as grin_core::ser::Readable>::read"
-    c.r2("bitmap-seg-blocks", BS, ops={"Gt"}, lhs=["call:Reader::read_u16"], rhs=["call:BitmapSegment::max_chunks"], err="TooLargeReadErr", sink="re:alloc::vec::Vec::with_capacity$")
+    c.r2("bitmap-seg-blocks", BS, ops={"Gt"}, lhs=["call:Reader::read_u16"], rhs=["call:BitmapSegment::max_chunks", "op:AddWithOverflow", "op:SubWithOverflow", "op:Div"], err="TooLargeReadErr", sink="re:alloc::vec::Vec::with_capacity$")
     c.r2("bitmap-seg-height", "grin_chain::txhashset::bitmap_accumulator::BitmapSegment::max_chunks", ops={"Gt"}, lhs=["arg0.height"], rhs=["re:^item:.*MAX_SEGMENT_HEIGHT="],
          err="TooLargeReadErr")
     c.r2("bitmap-seg-chunks", "grin_chain::txhashset::bitmap_accumulator::BitmapSegment::validate_blocks", ops={"Gt"}, lhs=["call:BitmapSegment::n_chunks"], rhs=["call:BitmapSegment::max_chunks"],
@@ -151,11 +151,11 @@ def run(c):
          err="TooLargeReadErr")
     # --- limit before body
     MH = "<grin_p2p::msg::MsgHeaderWrapper as grin_core::ser::Readable>::read"
-    c.r2("msg-limit-known", MH, ops={"Gt"}, lhs=["call:Reader::read_u64"], rhs=["call:msg::max_msg_size"], err="TooLargeReadErr", dominate=False,
+    c.r2("msg-limit-known", MH, ops={"Gt"}, lhs=["call:Reader::read_u64"], rhs=["call:msg::max_msg_size", "op:MulWithOverflow", "const:4"], err="TooLargeReadErr", dominate=False,
          desc="MsgHeaderWrapper::read: msg_len above the per-type limit is refused")
-    c.r2("msg-limit-unknown", MH, ops={"Gt"}, lhs=["call:Reader::read_u64"], rhs=["call:msg::default_max_msg_size"], err="TooLargeReadErr", dominate=False,
+    c.r2("msg-limit-unknown", MH, ops={"Gt"}, lhs=["call:Reader::read_u64"], rhs=["call:msg::default_max_msg_size", "op:MulWithOverflow", "const:4"], err="TooLargeReadErr", dominate=False,
          desc="MsgHeaderWrapper::read: msg_len of an unknown type above the default limit is refused")
-    c.r2("msg-limit-dominates", MH, ops={"Gt"}, lhs=["call:Reader::read_u64"], rhs=["re:^call:msg::(default_)?max_msg_size$"], err="TooLargeReadErr", min_guards=2,
+    c.r2("msg-limit-dominates", MH, ops={"Gt"}, lhs=["call:Reader::read_u64"], rhs=["re:^call:msg::(default_)?max_msg_size$", "op:MulWithOverflow", "const:4"], err="TooLargeReadErr", min_guards=2,
          desc="MsgHeaderWrapper::read: every ok exit passed the false edge of a `msg_len > limit` comparison")
     # `impl Readable for Vec<T>` (unbounded) must not be reachable from the decoders
     c.r4("no-unbounded-vec-read", "grin_p2p", P2P_ROOTS, {"unbounded": __import__("re").compile(r"^<alloc::vec::Vec<T> as grin_core::ser::Readable>::read$")}, {},
